@@ -107,3 +107,8 @@ CORPUS += [
     T('c02-stop-symbol-stripped-line-by-line', AL, "                sequences[taxon] += line\n", "                sequences[taxon] += line.rstrip('*')\n", expect=[('C02.N', 'evolution::sequence-symbols-are-kept-as-read')]),
     T('c02-benign-trailing-white-space-stripped', AL, "                sequences[taxon] += line\n", "                sequences[taxon] += line.rstrip()\n", benign=True),
 ]
+CORPUS += [
+    T('c02-kernel-pops-the-root-off-the-tree-models-list', TL, "    scalers = []\n    for node, left, right in post_indexing:\n        partial = (mats[..., left, :, :, :] @ partials[left]) * (",
+      "    scalers = []\n    post_indexing.sort(key=lambda row: row[0])\n    for node, left, right in post_indexing:\n        partial = (mats[..., left, :, :, :] @ partials[left]) * (",
+      expect=[('C02.W', 'calculate_treelikelihood_discrete_rescaled::the-traversal-it-is-given-is-left-as-it-is')]),
+]
